@@ -325,6 +325,38 @@ def check(repo: Repo, run: Run) -> None:
                     out.append((lr, e, inner))
         return out
 
+    def entry_extras(rec, lr, st, tid, eid, allow_eid):
+        """Conditions in force when the append loop is entered that are not the emptiness guards of the thread's
+        window table (`event.tid in state`, the table being truthy) nor - for END - `event.eventid in state[tid]`:
+        under any other condition some record of the thread is not appended to its open windows."""
+        extras = []
+        for c, pol in _pc_at_loop(rec, lr):
+            a = render.with_assumption({}, c, pol)
+            for atom, val in a.items():
+                if atom.op == "bool":
+                    if (atom.a[0] == "and" and val) or (atom.a[0] == "or" and not val):
+                        continue            # decomposed into its parts, judged below
+                    extras.append((atom, val))
+                    continue
+                if atom.op == "cmp" and atom.a[0] == "in" and val:
+                    if atom.a[1] == tid and strip_mut(atom.a[2]) in (st, T("call", (T("attr", (st, "keys")), (), ()))):
+                        continue
+                    if allow_eid and atom.a[1] == eid and winlike(atom.a[2], st, tid):
+                        continue
+                if val and winlike(atom, st, tid):
+                    continue
+                extras.append((atom, val))
+        return extras
+
+    def reach_ob(rule, meth, rec, loops, st, tid, eid, allow_eid, what, line):
+        if len(loops) != 1:
+            return
+        ex = entry_extras(rec, loops[0][0], st, tid, eid, allow_eid)
+        run.ob(rule, MOD, f"TracesParser.{meth}", "the append loop is reached for every record", not ex,
+               "" if not ex else f"{what} is appended to the open windows of its thread only when "
+               f"{' and '.join(('' if v else 'not ') + sym.pretty(a)[:70] for a, v in ex[:3])}: on the other paths the "
+               "enclosing START..END windows lose a record of their thread", line=line)
+
     # ---- K3 START
     fn, rec, ev, st, tid, eid, win = common(start_m)
     resets = [e for e in rec.effects if e.kind == "sub-store" and e.key == eid
@@ -341,6 +373,7 @@ def check(repo: Repo, run: Run) -> None:
     run.ob("K3", MOD, f"TracesParser.{start_m}", "append to every open window of the thread", okl,
            "" if okl else "START does not append the event (unconditionally, once) to every open window of its thread: "
                           "enclosing operations lose nested records", line=fn.lineno)
+    reach_ob("K3", start_m, rec, loops, st, tid, eid, False, "a START record", fn.lineno)
     if ok and okl:
         before = resets[0].seq < loops[0][0].body_seq[0]
         run.ob("K3", MOD, f"TracesParser.{start_m}", "window reset precedes the append loop", before,
@@ -374,6 +407,7 @@ def check(repo: Repo, run: Run) -> None:
     run.ob("K4", MOD, f"TracesParser.{end_m}", "append to every open window of the thread", okl,
            "END does not append the event (unconditionally, once) to every open window of its thread (its own included)",
            line=fn.lineno)
+    reach_ob("K4", end_m, rec, loops, st, tid, eid, True, "an END record", fn.lineno)
     # the window is removed by windows.pop(eventid), or read first and removed by `del windows[eventid]`
     pops = [e for e in rec.effects if ((e.kind == "mut-call" and e.key == "pop") or e.kind == "del-sub")
             and (winlike(e.path, st, tid) or winlike(e.base, st, tid))]
@@ -402,6 +436,7 @@ def check(repo: Repo, run: Run) -> None:
     okl = len(loops) == 1 and not loops[0][2]
     run.ob("K5", MOD, f"TracesParser.{all_m}", "append to every open window of the thread", okl,
            "a NONE/ALL event is not appended (unconditionally, once) to every open window of its thread", line=fn.lineno)
+    reach_ob("K5", all_m, rec, loops, st, tid, eid, False, "a NONE/ALL record", fn.lineno)
     others = [e for e in rec.effects if not (loops and e is loops[0][1])]
     run.ob("K5", MOD, f"TracesParser.{all_m}", "no other state change", not others,
            f"a NONE/ALL event also performs {[(e.kind, e.key) for e in others][:3]}", nontrivial=False)
